@@ -520,23 +520,23 @@ class EbuildProcessor:
             signal.signal(signal.SIGALRM, self._timeout_ebp)
             signal.setitimer(signal.ITIMER_REAL, timeout)
 
-        if async_req:
-            self._outstanding_expects.append((flush, want))
-            return True
-        if flush:
-            self.ebd_write.flush()
-        if not self._outstanding_expects:
-            try:
+        try:
+            if async_req:
+                self._outstanding_expects.append((flush, want))
+                return True
+            if flush:
+                self.ebd_write.flush()
+            if not self._outstanding_expects:
                 return want == self.read().rstrip("\n")
-            except TimeoutError:
-                return False
-            finally:
-                if timeout:
-                    signal.setitimer(signal.ITIMER_REAL, 0)
-                    signal.signal(signal.SIGALRM, signal.SIG_DFL)
 
-        self._outstanding_expects.append((flush, want))
-        return self._consume_async_expects()
+            self._outstanding_expects.append((flush, want))
+            return self._consume_async_expects()
+        except TimeoutError:
+            return False
+        finally:
+            if timeout:
+                signal.setitimer(signal.ITIMER_REAL, 0)
+                signal.signal(signal.SIGALRM, signal.SIG_DFL)
 
     def readlines(self, lines):
         mydata = []
